@@ -65,6 +65,8 @@ def features(c):
                 if open_.get(sid):
                     f.add("end_with_open")
                 open_.pop(sid, None)
+            elif s["op"] == "dead":
+                f.add("dead_on_arrival")
             else:
                 m = s["m"]
                 subs = open_.setdefault(sid, set())
@@ -120,7 +122,15 @@ class C19(Prop):
     ]
 
     def to_coq(self, I, c):
-        groups = clist(c.get("groups") or [], lambda g: clist(g, lambda s: cstep(I, s), "pstep"), "(list pstep)")
+        def expand(g):
+            out = []
+            for s in g:
+                if s["op"] == "dead":      # a session that starts with a cancelled context: Start; End
+                    out += [dict(s, op="start"), dict(s, op="end")]
+                else:
+                    out.append(s)
+            return out
+        groups = clist(c.get("groups") or [], lambda g: clist(expand(g), lambda s: cstep(I, s), "pstep"), "(list pstep)")
         obs = clist(c.get("obs") or [], lambda o: csnap(I, o), "snap")
         inner = clist(c.get("inner") or [],
                       lambda v: cpair(cZ(v["s"]), clist(v.get("ms") or [], lambda m: cmsg(I, m), "pcmsg")),
@@ -175,7 +185,7 @@ class C19(Prop):
 
     def distribution(self, cases):
         d = {"groups": 0, "steps": 0, "concurrent_groups": 0, "start": 0, "end": 0, "client": 0, "server": 0,
-             "sessions": 0, "unclean": 0}
+             "sessions": 0, "unclean": 0, "dead_on_arrival": 0}
         feats = {}
         for c in cases:
             d["groups"] += len(c.get("groups") or [])
@@ -185,7 +195,7 @@ class C19(Prop):
                 d["steps"] += len(g)
                 d["concurrent_groups"] += 1 if len(g) > 1 else 0
                 for s in g:
-                    d[{"start": "start", "end": "end", "c": "client", "s": "server"}[s["op"]]] += 1
+                    d[{"start": "start", "end": "end", "c": "client", "s": "server", "dead": "dead_on_arrival"}[s["op"]]] += 1
             for f in features(c):
                 feats[f] = feats.get(f, 0) + 1
         d["cases_exercising"] = feats
